@@ -91,7 +91,7 @@ class WorkerProcess(Process, ABC):
         except queue.Full:
             self._logger.warning("output queue is full!")
         else:
-            sucess = True
+            success = True
 
-        return True
+        return success
 
